@@ -355,9 +355,65 @@ def index_kind(idx: Term, loopvar: Term) -> str:
 
 
 # ------------------------------------------------------------------ finite evaluation of pair-type selectors
+class TV:
+    """A type id carrying its integer kind: 'u' (unsigned, arithmetic wraps modulo 2**32 - HOOMD/GSD type ids are uint32) or
+    's' (signed).  Python int constants stay plain ints (numpy treats them as weak scalars: the array's kind wins)."""
+    __slots__ = ("v", "k")
+    M = 2 ** 32
+
+    def __init__(self, v, k):
+        self.k = k
+        self.v = v % self.M if k == "u" else v
+
+    @staticmethod
+    def _split(o):
+        return (o.v, o.k) if isinstance(o, TV) else (o, None)
+
+    def _bin(self, o, f, swap=False):
+        b, kb = self._split(o)
+        if isinstance(b, (float, bool)) and not isinstance(b, bool) and kb is None:
+            return f(b, self.v) if swap else f(self.v, b)
+        kind = "s" if "s" in (self.k, kb) else "u"
+        return TV(f(b, self.v) if swap else f(self.v, b), kind)
+
+    def __add__(self, o): return self._bin(o, lambda a, b: a + b)
+    def __radd__(self, o): return self._bin(o, lambda a, b: a + b, True)
+    def __sub__(self, o): return self._bin(o, lambda a, b: a - b)
+    def __rsub__(self, o): return self._bin(o, lambda a, b: a - b, True)
+    def __mul__(self, o): return self._bin(o, lambda a, b: a * b)
+    def __rmul__(self, o): return self._bin(o, lambda a, b: a * b, True)
+    def __neg__(self): return TV(-self.v, self.k)
+    def __abs__(self): return TV(abs(self.v), self.k)
+    def __eq__(self, o): return self.v == self._split(o)[0]
+    def __ne__(self, o): return self.v != self._split(o)[0]
+    def __lt__(self, o): return self.v < self._split(o)[0]
+    def __le__(self, o): return self.v <= self._split(o)[0]
+    def __gt__(self, o): return self.v > self._split(o)[0]
+    def __ge__(self, o): return self.v >= self._split(o)[0]
+    def __hash__(self): return hash(self.v)
+    def __bool__(self): return bool(self.v)
+    def __repr__(self): return f"{self.v}{self.k}"
+
+
+SIGNED_DTYPES = ("int", "int8", "int16", "int32", "int64", "intp", "float", "float32", "float64", "longlong", "int_")
+
+
+def _astype_kind(t: Term) -> Optional[str]:
+    """'s' / 'u' / None for the dtype argument of an astype-like call"""
+    args = list(t[2][1:]) + [v for k_, v in (t[3] if len(t) > 3 else ())]
+    for a in args:
+        txt = show(a)
+        name = txt.split(".")[-1].strip("'\"")
+        if name.startswith("uint") or name in ("ubyte", "ushort", "uintc", "ulonglong"):
+            return "u"
+        if name in SIGNED_DTYPES:
+            return "s"
+    return None
+
+
 def eval_pair(t: Term, ta: int, tb: int, type_of, loopvar: Term) -> Any:
     """Concrete value of a selector term for one pair: centre i of species ta, neighbour j of species tb.
-    `type_of(term)` returns 'i' / 'j' / None for particle_type reads."""
+    `type_of(term)` returns 'i' / 'j' / None for particle_type reads.  ta / tb may be TV values (unsigned ids)."""
     k = t[0]
     if k == "weights01":
         # histogram weights used as a selection: they must be exactly 0 / 1 (or truth values) for the pair
@@ -410,7 +466,13 @@ def eval_pair(t: Term, ta: int, tb: int, type_of, loopvar: Term) -> Any:
         if f == "numpy.logical_not" and len(t[2]) == 1:
             return not eval_pair(t[2][0], ta, tb, type_of, loopvar)
         if f in (".astype",) and t[2]:
-            return eval_pair(t[2][0], ta, tb, type_of, loopvar)
+            v = eval_pair(t[2][0], ta, tb, type_of, loopvar)
+            kd = _astype_kind(t)
+            if kd and isinstance(v, TV):
+                return TV(v.v, kd)
+            if kd and isinstance(v, tuple) and v and v[0] == "cols":
+                return ("cols", tuple(TV(x.v, kd) if isinstance(x, TV) else x for x in v[1]))
+            return v
         raise Undecidable(f"call {show(t)[:80]}")
     if k == "bin":
         a = eval_pair(t[2], ta, tb, type_of, loopvar)
